@@ -19,8 +19,10 @@ from vlib.harness import REPO, VERIF_DIR, Clause, HarnessError, Rec, Violation, 
 from outrank import core_ranking as cr
 
 ID = 'C09'
-RULE = ('Layer 1 (owned schedules, in-process): generated frames x configurations x schedules (execution permutation seed, 1-16 logical '
-        'workers, optionally real threads, map flavour) - the triplet lists of two consecutive batches under the scheduled pool must '
+RULE = ('Layer 1 (owned schedules, in-process): generated frames (2-20 columns, so that batches exceed 128 combinations) x '
+        'configurations (incl. --mi_stratified_sampling_ratio < 1) x schedules (execution permutation seed, 1-16 logical workers, '
+        'optionally real threads, map flavour, async results that become ready after a generated number of polls - the 4 s polling '
+        'sleep of the code is replaced by a no-op through a module-attribute shim) - the triplet lists of two consecutive batches under the scheduled pool must '
         'equal those under the inline pool; non-trivial = execution order differs from submission order with >=2 workers. Layer 2 '
         '(real pathos pools, fresh processes): the real CLI entry point with --num_threads in {1,2,4,8,16}, every scoring call in the '
         'forked workers delayed by sha256(schedule seed, combination) (0-15 ms) and logged; pairwise_ranks.tsv rows must be identical '
@@ -34,8 +36,45 @@ ASSUMPTIONS = ['real worker interleavings are sampled (delays make completion or
 # ---- layer 1 -------------------------------------------------------------------------------------
 
 
+class _DelayedResult:
+    """Async result that reports ready() only after a generated number of polls (completion time owned by the harness)."""
+
+    def __init__(self, values, polls):
+        self._values = values
+        self._polls = polls
+
+    def ready(self):
+        if self._polls > 0:
+            self._polls -= 1
+            return False
+        return True
+
+    def get(self, timeout=None):
+        return self._values
+
+    def wait(self, timeout=None):
+        self._polls = 0
+
+
+class _NoSleepTime:
+    """Stands in for the `time` module inside outrank.core_ranking during in-process runs: sleep() returns at once."""
+
+    def __getattr__(self, name):
+        import time as _t
+        return getattr(_t, name)
+
+    def sleep(self, seconds):
+        return None
+
+
 class FlavouredPool(stubs.ScheduledPool):
-    """ScheduledPool plus the other pathos map flavours with their documented ordering contracts."""
+    """ScheduledPool plus the other pathos map flavours with their documented ordering contracts; every async result
+    becomes ready after a generated number of polls, so later submissions may complete before earlier ones."""
+
+    def amap(self, f, xs):
+        res = super().amap(f, xs)
+        rng = np.random.Generator(np.random.PCG64(self.order_seed * 31 + self.calls))
+        return _DelayedResult(res.get(), int(rng.integers(0, 4)))
 
     def uimap(self, f, xs):
         xs = list(xs)
@@ -51,12 +90,13 @@ class FlavouredPool(stubs.ScheduledPool):
 
 @st.composite
 def l1_case(draw):
-    ncols = draw(st.integers(2, 6))
+    ncols = draw(st.one_of(st.integers(2, 6), st.integers(2, 6), st.integers(16, 22)))
     nrows = draw(st.integers(8, 120))
     return {'ncols': ncols, 'nrows': nrows, 'seed': draw(st.integers(0, 2**32 - 1)),
             'label_pos': draw(st.integers(0, ncols - 1)), 'pairwise': draw(st.booleans()),
             'heuristic': draw(st.sampled_from(['MI-numba-randomized', 'MI-numba-randomized', 'MI-numba-3mr', 'max-value-coverage'])),
-            'cap': draw(st.sampled_from([2, 3, 5, 2**15])), 'interaction_order': draw(st.sampled_from([1, 1, 2])),
+            'cap': draw(st.sampled_from([2, 5, 2**15, 2**15, 2**15])), 'interaction_order': draw(st.sampled_from([1, 1, 2])),
+            'ratio': draw(st.sampled_from([1.0, 1.0, 0.6, 0.35])),
             'order_seed': draw(st.integers(0, 2**31)), 'workers': draw(st.integers(1, 16)), 'threads': draw(st.booleans())}
 
 
@@ -80,7 +120,9 @@ def l1_frames(case):
 def oracle_l1(case, rec):
     names, frames = l1_frames(case)
     args = lambda: stubs.make_args(heuristic=case['heuristic'], target_ranking_only='False' if case['pairwise'] else 'True',  # noqa: E731
-                                   combination_number_upper_bound=int(case['cap']), interaction_order=int(case['interaction_order']))
+                                   combination_number_upper_bound=int(case['cap']),
+                                   interaction_order=int(case['interaction_order']) if case['ncols'] <= 6 else 1,
+                                   mi_stratified_sampling_ratio=float(case.get('ratio', 1.0)))
 
     def run_with(pool):
         stubs.reset_globals()
@@ -90,13 +132,19 @@ def oracle_l1(case, rec):
             summary, _, _, _ = cr.compute_batch_ranking(df.values.tolist(), set(), a, pool, list(df.columns), None, stubs.PBar())
             out.append([(x, y, float(s)) for x, y, s in summary.triplet_scores])
         return out
-    base = run_with(stubs.InlinePool())
-    pool = FlavouredPool(order_seed=case['order_seed'], workers=case['workers'], threads=case['threads'])
-    got = run_with(pool)
+    real_time = cr.time
+    cr.time = _NoSleepTime()       # the polling loop sleeps 4 s per poll; the harness owns completion times instead
+    try:
+        base = run_with(stubs.InlinePool())
+        pool = FlavouredPool(order_seed=case['order_seed'], workers=case['workers'], threads=case['threads'])
+        got = run_with(pool)
+    finally:
+        cr.time = real_time
     permuted = any(p != sorted(p) for p in pool.executed_orders)
     rec.nt(permuted and case['workers'] >= 2, key=case)
     rec.cls('threads' if case['threads'] else 'logical-workers', 'h=' + case['heuristic'],
-            'cap-binds' if case['cap'] < 10 else 'cap-free')
+            'cap-binds' if case['cap'] < 10 else 'cap-free', 'ratio<1' if case.get('ratio', 1.0) < 1 else 'ratio=1',
+            '>128-combinations' if any(len(b) > 256 for b in base) else '<=128-combinations')
     if got != base:
         for bi, (g, b) in enumerate(zip(got, base)):
             if g != b:
@@ -108,7 +156,7 @@ def oracle_l1(case, rec):
 
 # ---- layers 2 and 3 ----------------------------------------------------------------------------------
 
-FLAGS = ['pairwise', 'focus', 'multivalue', 'subfeature', 'noise', 'order2', 'transformers', 'cap']
+FLAGS = ['pairwise', 'focus', 'multivalue', 'subfeature', 'noise', 'order2', 'transformers', 'cap', 'mi_ratio']
 
 
 PROBES = [['num', 'amount', 'price'], ['0', '1', '2', '3'], ['f0', 'f1', 'f2', 'mv', 'num', 'amount', 'price', 'label']]
@@ -142,6 +190,7 @@ def gen_config(rng, kitchen_sink=False):
         on['order2'] = False      # keeps the quick run short
         on['noise'] = False
         on['cap'] = False         # a binding cap would hide most pairs; the second quick input binds it
+        on['mi_ratio'] = False    # the second quick input uses the stratified-sampling flag
     return {'flags': on, 'data_seed': int(rng.integers(0, 2**31)), 'rows': 1200, 'minibatch': 600}
 
 
@@ -189,6 +238,8 @@ def cli_args(cfg, data, out, num_threads):
         a += ['--transformers', 'minimal']
     if f['cap']:
         a += ['--combination_number_upper_bound', '7']
+    if f.get('mi_ratio'):
+        a += ['--mi_stratified_sampling_ratio', '0.6']
     return a
 
 
@@ -266,7 +317,7 @@ def run(ctx):
     if ctx.tier == 'quick':
         capped = gen_config(rng)
         capped['flags'] = {'pairwise': True, 'focus': False, 'multivalue': True, 'subfeature': False, 'noise': False,
-                           'order2': False, 'transformers': False, 'cap': True}
+                           'order2': False, 'transformers': False, 'cap': True, 'mi_ratio': True}
         cfgs = [gen_config(rng, kitchen_sink=True), capped]
         h1, h2, h3 = pick_hash_seeds(rng, 3)
         plans = [[[1, 11, 0], [4, 12, 0], [16, 13, 0], [4, 12, h1], [4, 12, h2]],
